@@ -6,7 +6,7 @@ import Hls.Gen.Arith
 Mirrors, statement by statement,
 * `Muxer.Start` (`muxer.go`): validation, leading track, stream / rendition / default / name assignment;
 * `Muxer.generateMultivariantPlaylist` + `muxerStream.populateMultivariantPlaylist`;
-* `bandwidth()` (Go `uint64` division; division by zero is an explicit `Panic`);
+* `bandwidth()` (Go `uint64` division; fixed code = total, `bandwidthWith`/`bandwidthLegacy` = with an explicit `Panic`);
 * `codecparams.Marshal`'s string assembly over ALREADY PARSED header fields
   (the bit-level SPS / sequence-header parsing is mediacommon's, not modelled);
 * the little segment bookkeeping needed to know which `(size?, duration)` entries
@@ -190,7 +190,19 @@ def start (v : Variant) (segCount : Nat) (tracks : List Track) : Except StartErr
       else if v = .mpegts then .ok [mpegtsStream tracks.length]
       else .ok (mkStreams tracks.length (hasVideo tracks) hd tracks 0 false)
 
-/-! ## bandwidth() -/
+/-! ## bandwidth()
+
+`bandwidth` / `bwLoop` mirror the code AFTER the repair of finding F13 (`fix: do not divide by a zero
+segment duration in bandwidth()`): a listed segment with a zero duration is left out of the loop, and
+a window without any timed segment yields `(maxBandwidth, 0)`. They are total — there is no division
+by zero left, hence no `Panic` outcome.
+
+`bandwidthWith skip guard` is the same code with each of the two guards present or absent
+(`skip` = the `&& seg.getDuration() > 0` conjunct of the loop's `if`, `guard` = the
+`if durations == 0 { return … }` before the final division). `bandwidthLegacy = bandwidthWith false false`
+is the definition before the fix (it panics, F13). `bandwidthCode` instantiates the two flags with what
+the extractor found in the source (`Hls.Gen.MvGen.bandwidthSkipsZeroDuration/…GuardsZeroTotal`): it is
+what the driver runs, and `c16_no_panic` is about it. -/
 
 inductive Seg
   | gap (dur : Nat)
@@ -202,27 +214,54 @@ inductive Panic | divideByZero
 
 def nsPerSec : Nat := 1000000000
 
-/-- the loop of `bandwidth`: state `(maxBandwidth, sizes, durations)` -/
-def bwLoop : List Seg → Nat → Nat → Nat → Except Panic (Nat × Nat × Nat)
-  | [], mx, sz, du => .ok (mx, sz, du)
+/-- the loop of `bandwidth` (fixed code): state `(maxBandwidth, sizes, durations)` -/
+def bwLoop : List Seg → Nat → Nat → Nat → Nat × Nat × Nat
+  | [], mx, sz, du => (mx, sz, du)
   | .gap _ :: rest, mx, sz, du => bwLoop rest mx sz du
   | .seg size dur :: rest, mx, sz, du =>
-    if dur = 0 then .error .divideByZero
+    if dur = 0 then bwLoop rest mx sz du          -- `&& seg.getDuration() > 0`
     else
       let bw := 8 * size * nsPerSec / dur
       bwLoop rest (if bw > mx then bw else mx) (sz + size) (du + dur)
 
-/-- `bandwidth(segments)` → `(maxBandwidth, averageBandwidth)`; unsigned 64-bit arithmetic without
-wrap-around (sizes below 2.3 GB, see notes). -/
-def bandwidth (segs : List Seg) : Except Panic (Nat × Nat) :=
+/-- `bandwidth(segments)` → `(maxBandwidth, averageBandwidth)` (fixed code); unsigned 64-bit arithmetic
+without wrap-around (sizes below 2.3 GB, see notes). -/
+def bandwidth (segs : List Seg) : Nat × Nat :=
+  match segs with
+  | [] => (0, 0)
+  | _ =>
+    match bwLoop segs 0 0 0 with
+    | (mx, sz, du) =>
+      if du = 0 then (mx, 0)                       -- `if durations == 0 { return int(maxBandwidth), 0 }`
+      else (mx, 8 * sz * nsPerSec / du)
+
+/-- the loop with the zero-duration conjunct present (`skip`) or absent -/
+def bwLoopWith (skip : Bool) : List Seg → Nat → Nat → Nat → Except Panic (Nat × Nat × Nat)
+  | [], mx, sz, du => .ok (mx, sz, du)
+  | .gap _ :: rest, mx, sz, du => bwLoopWith skip rest mx sz du
+  | .seg size dur :: rest, mx, sz, du =>
+    if dur = 0 then (if skip then bwLoopWith skip rest mx sz du else .error .divideByZero)
+    else
+      let bw := 8 * size * nsPerSec / dur
+      bwLoopWith skip rest (if bw > mx then bw else mx) (sz + size) (du + dur)
+
+/-- `bandwidth(segments)` with each of the two guards of the fix present or absent -/
+def bandwidthWith (skip guard : Bool) (segs : List Seg) : Except Panic (Nat × Nat) :=
   match segs with
   | [] => .ok (0, 0)
   | _ =>
-    match bwLoop segs 0 0 0 with
+    match bwLoopWith skip segs 0 0 0 with
     | .error e => .error e
     | .ok (mx, sz, du) =>
-      if du = 0 then .error .divideByZero
+      if du = 0 then (if guard then .ok (mx, 0) else .error .divideByZero)
       else .ok (mx, 8 * sz * nsPerSec / du)
+
+/-- `bandwidth()` as it was before the fix of F13 (no guard at all) -/
+def bandwidthLegacy (segs : List Seg) : Except Panic (Nat × Nat) := bandwidthWith false false segs
+
+/-- `bandwidth()` as the extractor found it in the source -/
+def bandwidthCode (segs : List Seg) : Except Panic (Nat × Nat) :=
+  bandwidthWith MvGen.bandwidthSkipsZeroDuration MvGen.bandwidthGuardsZeroTotal segs
 
 /-! ### specification side of C16's bandwidth clause: peak and mean bit rate of the listed segments -/
 
@@ -243,6 +282,13 @@ def totalDur : List Seg → Nat
   | [] => 0
   | .gap _ :: rest => totalDur rest
   | .seg _ dur :: rest => dur + totalDur rest
+
+/-- the listed entries without the zero-duration segments (gaps are kept: `rates`, `totalSize`,
+`totalDur` ignore them anyway) — what the fixed `bandwidth()` computes its two numbers from -/
+def timed : List Seg → List Seg
+  | [] => []
+  | .gap d :: rest => .gap d :: timed rest
+  | .seg size dur :: rest => if dur = 0 then timed rest else .seg size dur :: timed rest
 
 def peakRate (segs : List Seg) : Nat := (rates segs).foldl (fun a b => if b > a then b else a) 0
 def meanRate (segs : List Seg) : Nat := 8 * totalSize segs * nsPerSec / totalDur segs
@@ -317,9 +363,15 @@ def generateWith (v : Variant) (streams : List Stream) (tracks : List Track) (ra
     independentSegments := MvGen.independentSegments,
     variants := [mv], renditions := rs }
 
+/-- `Muxer.generateMultivariantPlaylist` (fixed code: `bandwidth()` cannot panic) -/
 def generate (v : Variant) (streams : List Stream) (tracks : List Track) (rawQuery : String)
+    (segs0 : List Seg) : Multivariant :=
+  generateWith v streams tracks rawQuery (bandwidth segs0)
+
+/-- `Muxer.generateMultivariantPlaylist` over `bandwidth()` as found in the source (what the driver runs) -/
+def generateCode (v : Variant) (streams : List Stream) (tracks : List Track) (rawQuery : String)
     (segs0 : List Seg) : Except Panic Multivariant :=
-  match bandwidth segs0 with
+  match bandwidthCode segs0 with
   | .error e => .error e
   | .ok bw => .ok (generateWith v streams tracks rawQuery bw)
 
